@@ -61,7 +61,7 @@ _RE_STATS = re.compile(r"(\d+) states generated, (\d+) distinct states found")
 _RE_DEPTH = re.compile(r"The depth of the complete state graph search is (\d+)")
 _RE_INV = re.compile(r"Invariant (\S+) is violated")
 _RE_PROP = re.compile(r"(?:Action|Temporal) propert(?:y|ies) (\S+)? ?(?:is|were) violated")
-_RE_COV = re.compile(r"^<(\w+) line \d+, col \d+ to line \d+, col \d+ of module (\w+)>: (\d+):(\d+)", re.M)
+_RE_COV = re.compile(r"^<(\w+) line \d+, col \d+ to line \d+, col \d+ of module (\w+)(?: \([\d ]+\))?>: (\d+):(\d+)", re.M)
 
 
 def run_tlc(module: str, cfg: Optional[str] = None, *, workers: int | str = "auto",
